@@ -6,7 +6,7 @@
    the announcement that ESTABLISHES the LIB as "not a move" (c18_follow true): afterwards fm_any = true and the
    two forms of the monitor coincide. *)
 From BV Require Import Base.Prelude Model.Block Model.ForkDB Model.Forkable Model.ForkableLookups
-  Spec.Consumer Spec.Universe Spec.C18_Spec Spec.C18_Moving_Spec Spec.C18_Disc_Spec Check.Fk_Check Check.Fk_Props_Check
+  Spec.Consumer Spec.Universe Spec.C04_Spec Spec.C18_Spec Spec.C18_Moving_Spec Spec.C18_Disc_Spec Check.Fk_Check Check.Fk_Props_Check
   Proofs.PreludeFacts
   Proofs.Fk.StoreFacts Proofs.Fk.WalkFacts Proofs.Fk.LoopFacts Proofs.Fk.StoreChange Proofs.Fk.SwitchFacts
   Proofs.Fk.FixedLib Proofs.Fk.RootsBase Proofs.Fk.MovingLibStore Proofs.Fk.MovingLibWalk Proofs.Fk.MovingLibLoops
@@ -280,3 +280,171 @@ Section DiscLook.
       + constructor.
   Qed.
 End DiscLook.
+
+(* ================================================================ the monitor of the check *)
+
+Section DiscFollow.
+  Variable U : list block.
+  Variable cfg : config.
+
+  Hypothesis Hnofail : c_fail_at cfg = None.
+  Hypothesis Hnew : f_new (c_filter cfg) = true.
+  Hypothesis Hundo : f_undo (c_filter cfg) = true.
+  Hypothesis Hirr : f_irr (c_filter cfg) = true.
+  Hypothesis Hhold : c_hold cfg = true.
+  Hypothesis Hincl : c_incl cfg = false.
+
+  Hypothesis U_id : forall b, In b U -> bid b <> 0 /\ bid b <> bparent b.
+  Hypothesis U_uniq : forall x y, In x U -> In y U -> bid x = bid y -> x = y.
+  Hypothesis U_up : forall x y, In x U -> In y U -> bparent x = bid y -> bnum y < bnum x.
+  Hypothesis D_decl : forall b, In b U -> decl_none U b.
+
+  (* the recorded queries cover the history *)
+  Variables qh qi : list N.
+  Hypothesis Hq : forall x, In x U -> In (bid x) qi /\ In (bnum x) qh.
+
+  Variable cfgF : config.
+  Hypothesis HcfgF : nofail cfgF = cfg.
+
+  Notation PreInv := (PreInv U cfg).
+  Notation kept := (c_kept cfg).
+
+  Definition obs_events (os : list obs) : list event := all_events (map (fun o => (o_events o, o_result o)) os).
+
+  Lemma obs_events_cons o os : obs_events (o :: os) = o_events o ++ obs_events os.
+  Proof. reflexivity. Qed.
+
+  (* every block received so far is in the buffer *)
+  Definition pre_seen (s : fstate) (seen : list block) : Prop := forall x, In x seen -> In x U /\ st s x.
+
+  (* the lookups recorded before the discovery *)
+  Lemma look_ok_pre s seen root : PreInv s -> pre_seen s seen ->
+    look_ok kept U seen qh qi (mkFM [] 0 root false [] []) false (model_look s qh qi) = true.
+  Proof.
+    intros HP Hseen. unfold look_ok, model_look. cbn [l_ids l_lowest l_canon l_allat l_byhash fm_last fm_stack].
+    repeat (apply andb_true_iff; split).
+    - reflexivity.
+    - apply forallb_forall. intros b Hb. destruct (Hseen b Hb) as [HbU Hst].
+      apply orb_true_iff. right.
+      destruct (found_of_st U U_uniq s b (pre_inU U cfg s HP) HbU Hst) as [Hh (l & Hl & Hin)].
+      destruct (Hq b HbU) as [Hqi Hqh].
+      destruct (index_of_in _ _ Hqi) as (i & Hi & Hni). destruct (index_of_in _ _ Hqh) as (j & Hj & Hnj).
+      rewrite Hi, Hj, (nth_opt_map _ _ _ _ Hni), (nth_opt_map _ _ _ _ Hnj), Hh, Hl. cbn [andb].
+      apply memN_In. exact Hin.
+    - reflexivity.
+    - unfold lowest_block_num. rewrite (pre_last U cfg s HP). reflexivity.
+    - apply forallb_forall. intros x Hx. apply in_map_iff in Hx as (n & <- & _). reflexivity.
+  Qed.
+
+  (* a call of the never-failing handler that returned ROk: the same call under the oracle, or cut by the failure *)
+  Lemma step_or_fail' s b sN evsN : before_fail cfgF s -> fk_step cfg s b = (sN, evsN, ROk) ->
+    (fk_step cfgF s b = (sN, evsN, ROk) /\ before_fail cfgF sN) \/
+    (exists se e1 e2, evsN = e1 ++ e2 /\ fk_step cfgF s b = (se, e1, RHandlerErr)).
+  Proof.
+    unfold before_fail. rewrite <- HcfgF. destruct (c_fail_at cfgF) as [k|] eqn:Hf; intros Hk Hstep.
+    - pose proof (step_fail cfgF k Hf s b) as R0. rewrite Hstep in R0. cbn [step_rel'] in R0.
+      destruct R0 as (_ & evs0 & Hev & Hn & Hrel). cbn [app] in Hev. subst evs0.
+      destruct (Hrel Hk) as [HA HB].
+      destruct (N.le_gt_cases (ncalls s + N.of_nat (length evsN)) k) as [Hle|Hgt].
+      + left. split; [apply HA; exact Hle | lia].
+      + right. destruct (HB Hgt) as (se & e1 & e2 & He & _ & Hres). exists se, e1, e2. auto.
+    - left. rewrite (nofail_same cfgF Hf) in Hstep. auto.
+  Qed.
+
+  Lemma last_new_disc b a pre acc : last_new acc (disc_events cfg b a (pre ++ [b])) = bid b.
+  Proof.
+    unfold disc_events. rewrite last_new_app, (last_new_inert _ (if f_irr (c_filter cfg) then _ else _)).
+    - unfold fresh_events. rewrite map_app. cbn [map]. apply last_new_snoc. reflexivity.
+    - destruct (f_irr (c_filter cfg)); [|constructor]. constructor; [left; reflexivity | constructor].
+  Qed.
+
+  Lemma disc_follow : forall hh s seen os root,
+    PreInv s -> pre_seen s seen -> (forall b, In b hh -> In b U) -> before_fail cfgF s ->
+    model_matches cfgF s hh os qh qi = true ->
+    (forall e rest, obs_events os = e :: rest -> root = elib e) ->
+    c18_follow true kept (ri root) root U qh qi (mkFM [] 0 root false [] []) 0 seen hh os = true.
+  Proof.
+    induction hh as [|b rest IH]; intros s seen os root HP Hseen Hh Hbf Hmm Hroot.
+    - destruct os; reflexivity.
+    - destruct os as [|o os']; [reflexivity|].
+      assert (Hb : In b U) by (apply Hh; left; reflexivity).
+      assert (Hh' : forall x, In x rest -> In x U) by (intros x Hx; apply Hh; right; exact Hx).
+      cbn [model_matches] in Hmm. cbn [c18_follow].
+      destruct (disc_step_ev U cfg Hnofail Hnew Hundo Hhold Hincl U_id U_uniq U_up D_decl s b HP Hb)
+        as [[(s1 & HstepN & HP1 & _ & Hkeys & Hkb) _]|(Hnk & Hdisc)].
+      + (* nothing delivered *)
+        assert (Hseen1 : pre_seen s1 (b :: seen)).
+        { intros x [<-|Hx]; [split; assumption|]. destruct (Hseen x Hx) as [HxU Hsx]. split; [exact HxU | apply Hkeys; exact Hsx]. }
+        destruct (step_or_fail' s b s1 _ Hbf HstepN) as [[HstepF Hbf1] | (se & e1 & e2 & Hev & HstepF)].
+        * rewrite HstepF in Hmm.
+          apply andb_true_iff in Hmm as [Hmm H6]. apply andb_true_iff in Hmm as [Hmm H5].
+          apply andb_true_iff in Hmm as [Hmm H4]. apply andb_true_iff in Hmm as [Hmm H3].
+          apply andb_true_iff in Hmm as [H1 H2].
+          apply (list_eqb_eq _ event_eqb_iff) in H1. apply result_eqb_iff in H2. apply head_eqb_id in H3.
+          rewrite <- H1, <- H2. cbn [fin_events existsb andb last_new fold_left result_eqb negb orb].
+          apply andb_true_iff. split; [apply andb_true_iff; split|].
+          -- fold (head_id (o_head o)). rewrite <- H3. unfold head_id, head_info. rewrite (pre_last U cfg s1 HP1). reflexivity.
+          -- destruct (o_look o) as [l|]; [|reflexivity]. apply look_eqb_eq in H5. subst l.
+             apply look_ok_pre; assumption.
+          -- apply (IH s1 (b :: seen) os' root HP1 Hseen1 Hh' Hbf1 H6).
+             intros e rest0 He. apply (Hroot e rest0). rewrite obs_events_cons, <- H1. exact He.
+        * symmetry in Hev. apply app_eq_nil in Hev as [-> _]. rewrite HstepF in Hmm.
+          apply andb_true_iff in Hmm as [Hmm H6]. apply andb_true_iff in Hmm as [Hmm H5].
+          apply andb_true_iff in Hmm as [Hmm H4]. apply andb_true_iff in Hmm as [Hmm H3].
+          apply andb_true_iff in Hmm as [H1 H2].
+          apply (list_eqb_eq _ event_eqb_iff) in H1. apply result_eqb_iff in H2.
+          rewrite <- H1, <- H2. cbn [fin_events existsb andb last_new fold_left result_eqb negb orb].
+          destruct os' as [|o2 os2]; [|discriminate].
+          destruct (o_look o); destruct rest; reflexivity.
+      + (* the LIB is discovered *)
+        destruct Hdisc as (s1 & a & Fin & pre & HstepN & HaU & Hab & Happ & HI1 & Hcase & Hl1 & Hlls1 & Hls1 & Hka & Hkeep & _ & Hmon).
+        destruct (Hmon Hirr) as (m' & Hfin & HM' & Hany').
+        set (evsN := disc_events cfg b a (pre ++ [b])) in *.
+        destruct (disc_events_first cfg b a pre) as (e0 & rest0 & He0 & Hel0). fold evsN in He0.
+        pose proof (disc_lext cfg s s1 a b Fin pre Hcase Hl1 Hka) as HE1.
+        assert (Hseen1 : seen_ok U s1 (b :: seen)).
+        { intros x Hx. assert (HxU : In x U) by (destruct Hx as [<-|Hx]; [exact Hb | apply (Hseen x Hx)]).
+          split; [exact HxU|].
+          destruct (Hkeep x HxU) as [H|H]; [|left; exact H | right; rewrite Hl1; cbn [R rn]; lia].
+          destruct Hx as [<-|Hx]; apply in_or_app; [right; left; reflexivity | left; apply (Hseen x Hx)]. }
+        destruct (step_or_fail' s b s1 _ Hbf HstepN) as [[HstepF Hbf1] | (se & e1 & e2 & Hev & HstepF)].
+        * rewrite HstepF in Hmm.
+          apply andb_true_iff in Hmm as [Hmm H6]. apply andb_true_iff in Hmm as [Hmm H5].
+          apply andb_true_iff in Hmm as [Hmm H4]. apply andb_true_iff in Hmm as [Hmm H3].
+          apply andb_true_iff in Hmm as [H1 H2].
+          apply (list_eqb_eq _ event_eqb_iff) in H1. apply result_eqb_iff in H2. apply head_eqb_id in H3.
+          assert (Er : root = R a).
+          { rewrite <- Hel0. apply (Hroot e0 (rest0 ++ obs_events os')). rewrite obs_events_cons, <- H1, He0. reflexivity. }
+          subst root. fold (m0 (R a)). rewrite <- H1, Hfin, <- H2. cbv beta iota zeta.
+          cbn [fm_any m0 negb andb]. rewrite andb_false_r. cbn [result_eqb negb orb andb].
+          apply andb_true_iff. split; [apply andb_true_iff; split|].
+          -- fold (head_id (o_head o)). rewrite <- H3. unfold head_id, head_info. rewrite Hls1. cbn [bref ri].
+             unfold evsN. rewrite last_new_disc. apply N.eqb_refl.
+          -- destruct (o_look o) as [l|]; [|reflexivity]. apply look_eqb_eq in H5. subst l.
+             apply (look_ok_model U (R a) cfg U_id U_uniq U_up (Lid U U_id a HaU) (Lnum U U_uniq a HaU) (Lup U U_up a HaU)
+                      (Ldecl U U_uniq D_decl a HaU) qh qi Hq s1 Fin _ m' (b :: seen) false HI1 HE1 HM' Hseen1).
+             intros H; discriminate.
+          -- rewrite (c18_follow_any _ _ _ _ _ _ _ _ _ _ _ Hany').
+             apply (follow_run U (R a) cfg Hnofail Hnew Hundo Hirr U_id U_uniq U_up (Lid U U_id a HaU) (Lnum U U_uniq a HaU)
+                      (Lup U U_up a HaU) (Ldecl U U_uniq D_decl a HaU) qh qi Hq cfgF HcfgF rest s1 Fin _ m' _ (b :: seen) os'
+                      HI1 HE1); [|exact Hh' | exact Hbf1 | exact H6].
+             constructor; [exact HM'| |exact Hseen1].
+             unfold evsN. rewrite last_new_disc, rev_app_distr. reflexivity.
+        * rewrite HstepF in Hmm.
+          apply andb_true_iff in Hmm as [Hmm H6]. apply andb_true_iff in Hmm as [Hmm H5].
+          apply andb_true_iff in Hmm as [Hmm H4]. apply andb_true_iff in Hmm as [Hmm H3].
+          apply andb_true_iff in Hmm as [H1 H2].
+          apply (list_eqb_eq _ event_eqb_iff) in H1. apply result_eqb_iff in H2.
+          assert (Hf1 : exists m1, fin_events (ri root) root b (mkFM [] 0 root false [] []) e1 = Some m1).
+          { destruct e1 as [|e r1]; [eexists; reflexivity|].
+            assert (Er : root = R a).
+            { rewrite <- Hel0. rewrite He0 in Hev. cbn [app] in Hev. injection Hev as <- _.
+              apply (Hroot e0 (r1 ++ obs_events os')). rewrite obs_events_cons, <- H1. reflexivity. }
+            subst root. fold (m0 (R a)). rewrite Hev in Hfin.
+            destruct (fin_events_split _ _ _ _ _ _ _ Hfin) as (m1 & H0 & _). eauto. }
+          destruct Hf1 as [m1 Hf1].
+          rewrite <- H1, Hf1, <- H2. cbv beta iota zeta. cbn [result_eqb negb orb andb].
+          destruct os' as [|o2 os2]; [|discriminate].
+          destruct (o_look o); destruct rest; reflexivity.
+  Qed.
+End DiscFollow.
